@@ -57,11 +57,23 @@ def run_property(prop, repo_root, tier, seed, evidence_dir=None, quiet=False):
     t0 = time.time()
     ctx = Context(repo_root, tier, seed)
     mod = importlib.import_module('sa.rules.%s' % prop.lower())
-    result = mod.run(ctx)
-    for c in result.clauses:
-        if c.obligations < c.floor:
-            raise AnalysisError('instance floor not met: clause %s bound to %d constructs, floor %d (%s)' % (
-                c.id, c.obligations, c.floor, c.title))
+    report.LAST_RESULT[0] = None
+    try:
+        result = mod.run(ctx)
+        for c in result.clauses:
+            if c.obligations < c.floor:
+                raise AnalysisError('instance floor not met: clause %s bound to %d constructs, floor %d (%s)' % (
+                    c.id, c.obligations, c.floor, c.title))
+    except AnalysisError as ex:
+        # a later clause could not bind to the tree; violations already established by earlier clauses stand on their own
+        partial = report.LAST_RESULT[0]
+        known = report.load_known()
+        if partial is None or partial.prop != prop or not any(report.match_known(f, known) is None for f in partial.findings):
+            raise
+        partial.not_decided.append('analysis stopped early: %s' % ex)
+        partial.clauses = [c for c in partial.clauses if c.obligations >= c.floor]
+        result = partial
+        print('NOTE %s: %s -- reporting the violations established before that point' % (prop, ex))
     wall = time.time() - t0
     return report.emit(result, tier, seed, wall, repo_root, ctx.repo.stats(), evidence_dir=evidence_dir, quiet=quiet)
 
